@@ -43,24 +43,42 @@ variable {N : Type}
     `NumLaws`: `parse(to_string(x)) = x` and `to_string(x)` has the shape `-?(0|[1-9]d*)(.d+)?`
     (the external f64 law, tested on the real f64 in every run). -/
 theorem parse_stringify_in_context (ops : NumOps N) (laws : NumLaws ops) (v : JsonValue N) (hv : WF v)
-    (pre tail : Bytes) (dbg : Bool) (ht : Stop tail) (fuel : Nat) (hf : need v ≤ fuel) :
-    parseValue ops fuel { pre := pre, rest := stringify ops v ++ tail, debug := dbg }
+    (pre tail : Bytes) (dbg : Bool) (ht : Stop tail) (fuel d : Nat) (hf : need v ≤ fuel)
+    (hd : d + depth v ≤ maxNesting) :
+    parseValue ops fuel d { pre := pre, rest := stringify ops v ++ tail, debug := dbg }
       = .ok (v, { pre := (stringify ops v).reverse ++ pre, rest := tail, debug := dbg }) :=
-  parseValue_stringify ops laws v fuel pre tail dbg ht hf hv
+  parseValue_stringify ops laws v fuel d pre tail dbg ht hf hv hd
 
-/-- **C17b**: `parse_json_str(stringify(v)) = Ok(v)` for every value tree (any depth, any
-    strings, any numbers satisfying the f64 law).  In particular the fuel that `parseBytes` hands
-    to the recursive functions is always sufficient and no panic site is reached. -/
-theorem parse_stringify (ops : NumOps N) (laws : NumLaws ops) (v : JsonValue N) (hv : WF v) :
+/-- **C17b**: `parse_json_str(stringify(v)) = Ok(v)` for every value tree whose arrays/objects are
+    nested at most 1024 deep (the limit `MAX_NESTING_DEPTH` that /repo f7196604 introduced so that the
+    recursive parser cannot overflow the stack; deeper documents are rejected by design, see
+    `nesting_limit`) — any strings, any numbers satisfying the f64 law.  In particular the fuel that
+    `parseBytes` hands to the recursive functions is always sufficient. -/
+theorem parse_stringify (ops : NumOps N) (laws : NumLaws ops) (v : JsonValue N) (hv : WF v)
+    (hd : depth v ≤ maxNesting) :
     parseBytes ops (stringify ops v) = .ok v := by
   unfold parseBytes Iter.start
   have hf : need v ≤ fuelFor (stringify ops v) := by
     have := need_le ops v
     unfold fuelFor; omega
-  have := parseValue_stringify ops laws v (fuelFor (stringify ops v)) [] [] true
-    (by intro b r e; cases e) hf hv
+  have := parseValue_stringify ops laws v (fuelFor (stringify ops v)) 0 [] [] true
+    (by intro b r e; cases e) hf hv (by omega)
   simp only [List.append_nil] at this
   rw [this]; rfl
+
+/-- the nesting limit: with 1024 containers already open, a further `[` or `{` is an error,
+    whatever follows (`enter_nested`) -/
+theorem nesting_limit (ops : NumOps N) (f d : Nat) (hd : maxNesting ≤ d) (pre rest : Bytes) (dbg : Bool)
+    (b : UInt8) (hb : b = 0x5b ∨ b = 0x7b) :
+    parseValue ops (f + 1) d { pre := pre, rest := b :: rest, debug := dbg } = .err := by
+  have hge : d ≥ maxNesting := hd
+  rcases hb with rfl | rfl
+  · simp only [parseValue]
+    rw [skipWs_nonws _ 0x5b rest rfl (by decide)]
+    simp [hge, formatError]
+  · simp only [parseValue]
+    rw [skipWs_nonws _ 0x7b rest rfl (by decide)]
+    simp [hge, formatError]
 
 /-- **C17c**: every `stringify` output is a JSON text in the sense of RFC 8259 (grammar of §2–§7
     as inductive predicates in `VtProofs/JsonGrammar.lean`), hence accepted by any conforming
@@ -94,8 +112,8 @@ theorem parse_total (ops : NumOps N) (input : Bytes) :
 
 /-- fuel bound in the recursive form (any iterator state): `2·|rest| + 3` suffices for a value and
     a successful parse never leaves more input than it was given -/
-theorem parseValue_total (ops : NumOps N) (it : Iter) (f : Nat) (hf : 2 * it.rest.length + 3 ≤ f) :
-    Good it.rest.length (parseValue ops f it) := (total_aux ops f).1 it hf
+theorem parseValue_total (ops : NumOps N) (it : Iter) (f d : Nat) (hf : 2 * it.rest.length + 3 ≤ f) :
+    Good it.rest.length (parseValue ops f d it) := (total_aux ops f).1 d it hf
 
 /-! ### NDJSON reader (`json/read.rs`) -/
 
@@ -141,7 +159,7 @@ example : WF demoValue := by
 example : parseBytes demoOps (stringify demoOps demoValue) = .ok demoValue :=
   parse_stringify demoOps demoLaws demoValue (by
     simp only [demoValue, WF, WFL, WFM, SortedKeys, and_true, List.pairwise_cons, List.Pairwise.nil]
-    decide)
+    decide) (by simp [demoValue, depth, depthL, depthM, maxNesting])
 
 /-! ### TileJSON: `update_from_pyramid` only narrows -/
 
